@@ -5,6 +5,7 @@ import os
 # property -> rules deciding its structural clauses (DESIGN.md section 4)
 PROPS = {
     'C01': ['DISPATCH', 'ACDUAL'],
+    'C03': ['SIZEEQ', 'WORKLIST', 'COW'],
     'C07': ['DISPATCH', 'ACDUAL'],
     'C09': ['DISPATCH', 'ACDUAL', 'MEMO', 'HASHEQ'],
     'C11': ['COW'],
